@@ -140,12 +140,12 @@ def conn_lifecycle(rng):
 
 def conn_keepalive(rng):
     """C13 flavour: probes, user MODELNAME queries racing them, other commands, unsolicited lines, latencies on both sides of the spacing"""
-    lat = rng.choice([0.0, 0.03, 0.06, 0.099, 0.1, 0.101, 0.15, 0.25, 0.4, 1.2])
+    lat = rng.choice([0.0, 0.03, 0.06, 0.099, 0.1, 0.101, 0.15, 0.25, 0.4, 1.2, 2.5, 3.5])
     unsol = []
     t = 0.0
     for _ in range(rng.randint(0, 6)):
         t += rng.choice([0.05, 0.3, 7.0, 29.9, 30.15, 30.25])
-        unsol.append([round(t, 3), rng.choice(["@MAIN:VOL=-%d.0" % rng.randint(1, 60), "@SYS:MODELNAME=RX-V", "@UNDEFINED", "@MAIN:MUTE=On"])])
+        unsol.append([round(t, 3), rng.choice(["@MAIN:VOL=-%d.0" % rng.randint(1, 60), "@SYS:MODELNAME=RX-V", "@UNDEFINED", "@MAIN:MUTE=On", "garbage", "", "no at sign: x=y"])])
     dev = {"type": "scripted", "latency": lat, "unsolicited": unsol}
     if rng.random() < 0.3:
         dev["latency"] = {"kind": "uniform", "lo": 0.0, "hi": rng.choice([0.12, 0.3]), "seed": rng.randrange(10 ** 6)}
